@@ -104,6 +104,8 @@ def run_accessor(c):
         da = da.transpose(*c["order"])
     if c.get("name"):
         da.name = c["name"]
+    if c.get("attr_nodata") is not None:
+        da.attrs["nodata"] = c["attr_nodata"]        # the nodata argument of the whit accessors must win over this
     nd = c["nodata"]
     op = c["op"]
     kw = {}
